@@ -2475,9 +2475,13 @@ Proof.
   split; [vm_compute; reflexivity|]. apply bo_listed_b_ok. vm_compute. reflexivity.
 Qed.
 
-(** (e) "Filter [fi] exists" is not enough for the call to succeed: [St] allows worlds with an
-        archetype that has no table yet (see [wf_arch_norel_table]: left behind by a creation that
-        panicked between createArchetype and createTable). If the filter matches such an archetype
+(** (e) "Filter [fi] exists" is not enough for the call to succeed under [St] alone: [St] allows
+        worlds with an archetype that has no table (see [wf_arch_norel_table]). Before the repair of
+        createArchetype such a world was left behind by a creation that panicked between
+        createArchetype and createTable; since the repair (the table of a relation-free archetype is
+        created together with the archetype) no reachable state is of this kind: [archs_tabled_norel]
+        (WF.v) holds initially and is kept by every finder (StorageA) and along all histories
+        (StorageD, [Inv4]). If the filter matches such an archetype
         the table selection itself panics ([EIndex], Go: index out of range in getTables), although
         no selected table is "not ready". Original target statement, with the hypotheses as first
         suggested:
@@ -2502,6 +2506,13 @@ Qed.
         [remove_entities_spec]. *)
 Definition bo_archs_tabled (s : W) : Prop :=
   forall aid a, nth_error (w_archs s) aid = Some a -> a_tables a <> [].
+
+(** In a relation-free world [bo_archs_tabled] is the clause [archs_tabled_norel] of WF.v, which holds
+    initially and is kept by every finder (StorageA) and along all histories (StorageD, [Inv4]). *)
+Lemma bo_archs_tabled_norel : forall s, bo_archs_tabled s -> archs_tabled_norel s.
+Proof. intros s H aid a Ha _. exact (H aid a Ha). Qed.
+Lemma archs_tabled_norel_bo : forall s, NoRel s -> archs_tabled_norel s -> bo_archs_tabled s.
+Proof. intros s (_ & _ & N3 & _) H aid a Ha. apply (H aid a Ha). apply (N3 aid a Ha). Qed.
 
 Lemma batch_tables_uncached_ok : forall s fi f, NoRel s ->
   nth_error (w_filters s) fi = Some f -> f_cache f = None -> bo_archs_tabled s ->
@@ -2564,15 +2575,21 @@ Proof.
 Qed.
 
 Definition bo_world_bare : W := exec bo_cfg [bo_filter_line].
-Definition bo_world_bad : W := state_of (find_or_create_arch (mk_of_list [0]) bo_world_bare).
+(* A state of [St] with an archetype without table. Since the repair of createArchetype (the table of a
+   relation-free archetype is created together with the archetype) such a state is no longer reachable
+   ([find_or_create_arch] would create the table, see [archs_tabled_norel] / [find_or_create_arch_tabled]
+   in StorageA); it is built here with the archetype step alone ([create_archetype_bare]). The statement
+   below stays refuted because [St] by itself does not contain [archs_tabled_norel]. *)
+Definition bo_world_bad : W := state_of (create_archetype_bare (mk_of_list [0]) bo_world_bare).
 
 Lemma bo_world_bad_St : St bo_world_bad.
 Proof.
   assert (H0 : St bo_world_bare).
   { replace bo_world_bare with (init_world bo_cfg <| w_filters := [bo_filter] |>) by (vm_compute; reflexivity).
     apply bo_St_filters; [|reflexivity]. apply St_init; [cbn; lia|cbn; lia|cbn; lia|repeat constructor]. }
-  destruct (find_or_create_arch_spec bo_world_bare (mk_of_list [0]) H0) as (aid & s' & E & HS' & _).
+  destruct (sa_create_archetype_bare_spec bo_world_bare (mk_of_list [0]) H0) as (s' & a & E & HS' & _).
   { intros j Hj. apply mk_get_of_list in Hj. destruct Hj as [<-|[]]. vm_compute. lia. }
+  { intros [|[|j]] a Ha; vm_compute in Ha; try discriminate. inversion Ha; subst a. vm_compute. discriminate. }
   unfold bo_world_bad. rewrite E. exact HS'.
 Qed.
 
@@ -2626,5 +2643,5 @@ Definition BatchOps_all :=
    new_batch_spec_nonvacuous, new_batch_example,
    exchange_batch_zero_sized_refuted, exchange_batch_vals_outside_fails, exchange_batch_not_ready_fails,
    batch_selection_cached_nonvacuous, batch_tables_uncached_ok, exchange_batch_spec_partial,
-   remove_entities_spec_partial, exchange_batch_spec_refuted).
+   remove_entities_spec_partial, exchange_batch_spec_refuted, bo_archs_tabled_norel, archs_tabled_norel_bo).
 Print Assumptions BatchOps_all.
